@@ -51,7 +51,7 @@ class Armorable(metaclass=abc.ABCMeta):
     #  - anything after a '#' that is not escaped or in a character class is ignored, allowing for comments
     __armor_regex = re.compile(r"""# This capture group is optional because it will only be present in signed cleartext messages
                          (^-{5}BEGIN\ PGP\ SIGNED\ MESSAGE-{5}(?:\r?\n)
-                          ((?P<hashes>(?:Hash:\ [A-Za-z0-9\-,]+(?:\r?\n))+)(?:\r?\n))?
+                          (?P<hashes>(?:Hash:\ [A-Za-z0-9\-,]+(?:\r?\n))+)?(?:\r?\n)
                           (?P<cleartext>(.*\r?\n)*(.*(?=\r?\n-{5})))(?:\r?\n)
                          )?
                          # armor header line; capture the variable part of the magic text
